@@ -256,6 +256,13 @@ def run(ctx):
         objs[5]["allow_address_overlap"] = True
         if k % 2:
             objs = [adef.mk_block("Bt", objs[:2] + objs[4:6], address_offset=200)] + objs[2:4] + objs[6:]
+        # block refs that leave ADDRESS_OFFSET (and REPEAT) to their target, declared inside ANOTHER block: the ref sits at
+        # host base + the TARGET's offset (seed C04-9 put it at offset 0)
+        tgt = adef.mk_block("Tgt", [adef.mk_register("Ia", 1, 8, fs()), adef.mk_command("Ic", 2, basic=True)], address_offset=1000 + 8 * k,
+                            repeat={"count": 2, "stride": 16} if k % 3 == 0 else None)
+        objs += [tgt, adef.mk_block("Hosta", [adef.mk_ref("Alias", "Tgt", {"kind": "block"})], address_offset=3000),
+                 adef.mk_block("Hostb", [adef.mk_ref("Aliasrep", "Tgt", {"kind": "block", "repeat": {"count": 2, "stride": 100}})],
+                               address_offset=5000)]
         d = {"config": adef.mk_config(register_address_type="u16", command_address_type="u16"), "objects": objs}
         cid = f"t{k}"
         defs[cid] = d
